@@ -192,10 +192,43 @@ fn gen_rules() -> BoxedStrategy<Value> {
     gen::case2(rules::rooted(cfg), gen::data_docs())
 }
 
+
+/// accumulated state: see common::sweep
+fn sweep_item(kind: u64, k: usize) -> (Value, Value) {
+    match kind % 2 {
+        0 => (json!({"cat": [format!("é{}", k), k, [k, null]]}), Value::Null),
+        _ => (json!({"substr": [format!("日本{}語x", k), 1 - (k % 4) as i64, (k % 5) as i64 - 2]}), Value::Null),
+    }
+}
+
+fn check_state_sweep(case: &Value, obs: &mut Obs) -> Result<(), String> {
+    let w = case["w"].as_u64().unwrap_or(1) as usize;
+    let kind = case["kind"].as_u64().unwrap_or(0);
+    sweep(w, &|k| sweep_item(kind, k), obs)?;
+    obs.nt(&format!("sweep kind {} W {}", kind, if w < 64 { "<64" } else if w < 128 { "64-127" } else { "128+" }));
+    Ok(())
+}
+
+fn fixed_state_sweeps() -> Vec<Value> {
+    sweep_cases(2, 160)
+}
+
 pub fn property() -> Property {
     Property {
         id: "C16",
         subs: vec![
+            Sub {
+                name: "state_sweep",
+                about: "accumulated state: for every W in 1..160 and each kind of keyed work of this operator family (distinct cat operand lists, distinct non-ASCII substr subjects), W hot items are evaluated twice, then a new item, the hot set again, another new item, and everything in reverse; every call against the reference model - a cache, pool or table with any capacity up to 160 is driven exactly over its boundary.",
+                nontrivial: "every case.",
+                strategy: None,
+                fixed: Some(fixed_state_sweeps),
+                fixed_exhaustive: false,
+                check: check_state_sweep,
+                quick: 0,
+                thorough: 0,
+                small_stack: false,
+            },
             Sub {
                 name: "substr_cube",
                 about: "every string of length <= 3 over {a b é ß 日 € 😀 𝄞} x start -5..5 x length (-5..5 or absent): character-vector model, result is a contiguous run, at most `length` characters, split law, literal and var routes.",
